@@ -57,6 +57,18 @@ pub fn thorough_chunk(prop: &str) -> u64 {
 }
 
 pub fn gen(prop: &str, seed: u64, tier: Tier) -> ScenarioSpec {
+    let mut spec = gen_inner(prop, seed, tier);
+    // the embedding application's logger configuration is one more drawn dimension
+    spec.log_level = match crate::prng::mix(seed, 0x106) % 20 {
+        0..=9 => 0,
+        10..=16 => 1,
+        17..=18 => 2,
+        _ => 3,
+    };
+    spec
+}
+
+fn gen_inner(prop: &str, seed: u64, tier: Tier) -> ScenarioSpec {
     match prop {
         "C01" => c01::gen(seed, tier),
         "C07" => c07::gen(seed, tier),
@@ -207,6 +219,9 @@ fn dispatch(spec: &ScenarioSpec, ctx: &mut Ctx) -> Result<(), Violation> {
 /// Execute one scenario. Pure function of the spec.
 pub fn run(spec: &ScenarioSpec) -> RunReport {
     let mut ctx = Ctx::new();
+    crate::worker::set_log_level(spec.log_level);
+    ctx.shape("log", spec.log_level as u64);
+    ctx.probe_if(spec.log_level > 0, "a logger is installed (Info or finer)");
     // a panic inside the harness itself (not inside a guarded peppi call) is a harness error
     let r = crate::report::guarded(|| dispatch(spec, &mut ctx));
     match r {
